@@ -19,6 +19,12 @@ CHECKS = {
         note='alias namespace {A,B,C,Z}; the same alias on two alternatives of one disjunction is a documented don\'t-care; own alias captured by a quantifier is the listed known finding F16',
         ref='DESIGN.md section 4, C02',
     ),
+    'C03': dict(
+        technique='property-based invariant checking: generated texts parsed through all entry points, every rewriting function applied in compositions of depth 2, each resulting AST walked against an independent signature table (typing invariant as oracle); exhaustive built-in x argument-shape table',
+        level='bounded exploration: thousands of generated ASTs per run (type-directed and type-chaotic but accepted) times ~10 derived ASTs each, every node checked for a non-empty type set inside its kind\'s mask, operands inside parameter types, declared results, equal sides of =/!=, bound-variable compatibility, boolean predicate roots and consistent reference groups',
+        note='trusts the signature transcription in hplverif/typesig.py; bound variables are required to be compatible with (not contained in) the element type, as the code comments state',
+        ref='DESIGN.md section 4, C03',
+    ),
     'C06': dict(
         technique='property-based round trip: parse generated text, str(), parse again with the entry point of that level; equality, hash and second-print oracle; run-wide injectivity map',
         level='bounded exploration: thousands of parser-produced ASTs per run over all node kinds, with time bounds from the whole double range in both units; every AST must print to text that parses to an equal, hash-equal AST that prints identically, and unequal ASTs must never share a printed form',
